@@ -8,7 +8,7 @@ pub fn prop() -> Prop {
     Prop {
         id: "C06",
         level: "model_checking",
-        rule: "clean streams of <=2 (thorough <=3) values over a 6-value core x 5 separator kinds (space, LF, tab, CRLF, touching) with k=0,1 (thorough 2) whitespace-delimited noise tokens (all 1- and 2-byte tokens over the 16 bytes } ] , : . e E + x * 0x80 0xff NUL and the UTF-8 lead bytes 0xc3 0xe2 0xf0 - so tokens ending in a truncated multi-byte character and complete 2-byte characters occur) in every gap (before/between/after) x 4 policies x 6 pipelines (none, select, sort, unique, group, take); 3-value streams with 1-byte tokens; streams of 10..300 values with a noise token in EVERY gap, all on one line or one per line; non-trivial = k>=1 and a value follows the noise; distinct by construction",
+        rule: "clean streams of <=2 (thorough <=3) values over a 6-value core x 5 separator kinds (space, LF, tab, CRLF, touching) with k=0,1 (thorough 2) whitespace-delimited noise tokens (all 1- and 2-byte tokens over the 16 bytes } ] , : . e E + x * 0x80 0xff NUL and the UTF-8 lead bytes 0xc3 0xe2 0xf0 - so tokens ending in a truncated multi-byte character and complete 2-byte characters occur) in every gap (before/between/after) x 4 policies x 9 pipelines (none, select, sort, unique, group, take, only-objects-and-arrays, split+filter, csv output); 3-value streams with 1-byte tokens; streams of 10..300 values with a noise token in EVERY gap, all on one line or one per line; non-trivial = k>=1 and a value follows the noise; distinct by construction",
         explanation: "differential against the run on the clean stream (and on the clean prefix for the panic policy), clause by clause as the property states; the reached-gap rule for --take follows the step-wise reference pipeline",
         assumptions: COMMON_ASSUMPTIONS.to_vec(),
         guards: vec!["many-noisy-regions-on-one-line", "noise-before-value", "panic-policy-prefix", "clean-crlf", "non-utf8-noise", "error-line-on-stdout", "error-line-on-stderr"],
@@ -30,13 +30,16 @@ struct Pipe {
     streaming: bool,
     take: Option<usize>,
 }
-const PIPES: [Pipe; 6] = [
+const PIPES: [Pipe; 9] = [
     Pipe { name: "none", args: &[], streaming: true, take: None },
     Pipe { name: "select", args: &["--select=.=v"], streaming: true, take: None },
     Pipe { name: "sort", args: &["--sort-by=."], streaming: false, take: None },
     Pipe { name: "unique", args: &["--unique"], streaming: true, take: None },
     Pipe { name: "group", args: &["--group-by=(stringify .)"], streaming: false, take: None },
     Pipe { name: "take", args: &["--take=2"], streaming: true, take: Some(2) },
+    Pipe { name: "ooa", args: &["--only-objects-and-arrays"], streaming: true, take: None },
+    Pipe { name: "split", args: &["--split-by=(? (array? .) . (push [] .))", "--filter=(!= . \"b\")"], streaming: true, take: None },
+    Pipe { name: "csv", args: &["--output-style=csv", "--select=(stringify .)=v", "--select=.a=a"], streaming: true, take: None },
 ];
 
 /// Build the stream text: values joined by `sep`; gap g (0 = before the first value,
